@@ -317,26 +317,75 @@ def _text_reaches_output(fn, st) -> str:
     return ""
 
 
-def _gateway_position(t: Tpl, slot: Slot) -> Tuple[bool, str]:
+def _spelling(t: Tpl) -> List[str]:
+    """A template as a list of literal pieces and `<expr>` markers (what the slot is bound to, read through locals)."""
+    out: List[str] = []
+    for p in t.parts:
+        if isinstance(p, str):
+            out.append(p)
+        elif p.sub is not None and p.sub.parts:
+            out.extend(_spelling(p.sub))
+        else:
+            e = p.val
+            out.append("<" + (unparse(e) if e is not None else "?" + p.key) + ">")
+    merged: List[str] = []
+    for p in out:
+        if merged and not merged[-1].startswith("<") and not p.startswith("<"):
+            merged[-1] += p
+        else:
+            merged.append(p)
+    return merged
+
+
+def _gateway_spelling(ctx) -> Optional[List[str]]:
+    """How `_wrapper_name()` spells the name of the gateway (one spelling on every path, or None)."""
+    ci, prog = mw(ctx)
+    fn = prog.method("MatlabWrapper", "_wrapper_name")
+    rets = [r for r in walk_no_nested(fn) if isinstance(r, ast.Return)]
+    if len(rets) != 1 or rets[0].value is None:
+        return None
+    return _spelling(Folder(prog, ci.mod, fn, ci).fold(rets[0].value))
+
+
+def _gateway_position(t: Tpl, slot: Slot, gateway: Optional[List[str]] = None) -> Tuple[bool, str]:
     """The slot is the first argument of `<wrapper>(`."""
     parts = t.parts
     i = parts.index(slot)
     if i == 0 or not isinstance(parts[i - 1], str) or not parts[i - 1].endswith("("):
         return False, "the id is not directly after an opening parenthesis"
     head = parts[i - 1][:-1]
-    if head.endswith("_wrapper"):
-        return True, "literal *_wrapper("
     if head == "" and i >= 2 and isinstance(parts[i - 2], Slot) and parts[i - 2].key in ("wrapper", "wrapper_name"):
         e = parts[i - 2].val
         if e is not None and unparse(e) == "self._wrapper_name()":
             return True, "self._wrapper_name()("
         return False, f"callee slot bound to {unparse(e) if e is not None else None}"
+    if head.endswith("_wrapper"):
+        if gateway is None:
+            return False, ("the gateway is spelled by hand here but `_wrapper_name()` has no single spelling to compare with: the .m file may call "
+                           "a function that is not the compiled gateway")
+        # the hand-written spelling must be the one `_wrapper_name()` produces, piece by piece from the right
+        before = _spelling(Tpl(parts[:i - 1] + [head]))
+        want = list(gateway)
+        ok = len(before) >= len(want)
+        for k in range(1, len(want) + 1):
+            if not ok:
+                break
+            a, b = before[-k], want[-k]
+            if k == len(want) and not b.startswith("<"):
+                ok = a.endswith(b) and not (len(a) > len(b) and (a[-len(b) - 1].isalnum() or a[-len(b) - 1] == "_"))
+            else:
+                ok = a == b
+        if ok:
+            return True, "literal spelling equal to `_wrapper_name()`"
+        return False, (f"the gateway is spelled `{''.join(before[-len(want):])[-40:]}` here but `_wrapper_name()` gives `{''.join(want)}`: "
+                       f"this .m file calls a function that is not the compiled gateway")
     return False, f"text before the parenthesis is {head[-20:]!r}"
 
 
 def rule_sites(ctx, rep: Report, rid="I3", min_sites=11):
     ci, prog = mw(ctx)
     sites = inventory(ctx)
+    gateway = _gateway_spelling(ctx)
     rep.units["id_allocation_sites"] = len(sites)
     for k, s in enumerate(sites):
         role = unparse(s.role.elts[2])[:30] if isinstance(s.role, ast.Tuple) and len(s.role.elts) == 4 else ("none" if s.role is None else "?")
@@ -345,7 +394,7 @@ def rule_sites(ctx, rep: Report, rid="I3", min_sites=11):
         ok = not s.problems and s.slot is not None
         pos_ok, how = (False, "")
         if ok:
-            pos_ok, how = _gateway_position(s.tpl, s.slot)
+            pos_ok, how = _gateway_position(s.tpl, s.slot, gateway)
         rep.add(rid, key + ":id embedded once, as first argument of the gateway call", ok and pos_ok,
                 "; ".join(s.problems) or how, loc)
         # role tuples have 4 fields
@@ -1038,3 +1087,39 @@ def rule_one_run_writes_every_file(ctx, rep: Report, rid="I7"):
         top = nxt
     if k < 2:
         raise AnalysisError("generate_content: dispatch on the shape of a content entry not found")
+
+
+def rule_entry_describes_its_own_overload(ctx, rep: Report, rid="I8"):
+    """An id allocated inside a loop over the overloads of one name (or over constructors / properties) is registered with an
+    entry that describes *that* element: the role tuple mentions the loop's own variable (`overload`, `function[i]`).  An
+    entry built from something fixed for the whole group (`group[0]`) gives every id of the group the routine of the first
+    overload - argument counts, unwrapping and the call no longer belong to the .m branch that passes the id."""
+    ci, prog = mw(ctx)
+    n = 0
+    sites = inventory(ctx)
+    for s in sites:
+        loop = enclosing(s.call, ast.For)
+        if loop is None or not (isinstance(s.role, ast.Tuple) and len(s.role.elts) == 4):
+            continue
+        n += 1
+        tv = {x.id for x in ast.walk(loop.target) if isinstance(x, ast.Name)}
+        # locals of the loop body that are computed from the loop variable count as "its own" too
+        own = set(tv)
+        changed = True
+        while changed:
+            changed = False
+            for st in ast.walk(loop):
+                if isinstance(st, ast.Assign) and len(st.targets) == 1 and isinstance(st.targets[0], ast.Name) and st.targets[0].id not in own \
+                        and any(isinstance(x, ast.Name) and x.id in own for x in ast.walk(st.value)):
+                    own.add(st.targets[0].id)
+                    changed = True
+        payload = s.role.elts[3]
+        if isinstance(payload, ast.Constant) and payload.value is None:
+            payload = s.role.elts[1]      # a free function's entry carries the overload as its owner
+        mentions = any(isinstance(x, ast.Name) and x.id in own for x in ast.walk(payload))
+        rep.add(rid, f"site:{s.fn.name}#{_ordinal(sites, s)}:the registered entry is the element the loop is at", mentions,
+                f"the entry's payload is `{unparse(payload)[:40]}`, the loop runs over `{unparse(loop.iter)[:30]}` as `{unparse(loop.target)}`: every id allocated "
+                f"in this loop is mapped to the same element, so the `case` of each later overload runs the first overload's routine",
+                f"{ci.mod.rel}:{s.call.lineno}")
+    if n < 4:
+        raise AnalysisError(f"{rep.prop}/{rid}: only {n} allocation sites inside loops")
